@@ -14,6 +14,9 @@ func runBidiCase[K comparable](c *core.Ctx, kind string, d *Dom[K]) {
 	m.Bidi = true
 	c.SetGaps((c.Index/8)%2 == 1)
 	nv := c.R.Range(4, 6)
+	if len(d.Alpha) >= 8 && len(d.Alpha) <= 50 {
+		nv = len(d.Alpha) + c.R.Range(-2, 2)
+	}
 	if len(d.Alpha) > 50 {
 		nv = len(d.Alpha) // wide cases: both trees get deep, deletions hit inner nodes
 	}
@@ -138,6 +141,13 @@ func runC10(c *core.Ctx) {
 	}
 	if (c.Index/2)%4 == 3 {
 		runBidiCase(c, kind, StrDom(c.R.Range(4, 6)))
+		return
+	}
+	if (c.Index/2)%4 == 2 {
+		// a dozen keys and values: trees three levels deep, values that jump
+		// across an ancestor, collisions still frequent
+		c.Count("bidi:medium-domains", 1)
+		runBidiCase(c, kind, IntDom(c.R.Range(8, 16)))
 		return
 	}
 	runBidiCase(c, kind, IntDom(c.R.Range(4, 6)))
